@@ -2,3 +2,4 @@ import NTV.Proofs.C05
 #print axioms NTV.C05.sign_rule
 #print axioms NTV.C05.zero_panics
 #print axioms NTV.C05.linear
+#print axioms NTV.C05.discriminant_is_discr_partial
